@@ -21,15 +21,29 @@ class PathEvents:
         self.feasible = True
         self.truth = {}
         aops = {op["st"]["id"]: op for op in atomic_ops(f)}
+        self.tern = {}          # ConditionalOperator id -> arm taken on this path
+        self.refalias = {}      # declaration id of a local reference bound through a ternary -> the arm bound here
         for kind, pos, val in path_positions(f, p):
             if kind == "elem":
                 e = f.elem(pos)
                 if e["k"] != "S":
                     continue
                 st = f.stmts[e["s"]]
+                if st["k"] == "DeclStmt":
+                    for d in st["decls"]:
+                        if d.get("ref") and d.get("init"):
+                            iu = unwrap(f, f.s(d["init"]))
+                            if iu is not None and iu["k"] == "ConditionalOperator" and iu["id"] in self.tern:
+                                self.refalias[d["id"]] = unwrap(f, f.s(iu["then"] if self.tern[iu["id"]] else iu["else"]))
                 if st["id"] in aops:
                     op = aops[st["id"]]
                     fld = atomic_field_of(f, op)
+                    if fld is None:
+                        oe = unwrap(f, f.s(st["obj"]) if st["k"] == "CXXMemberCallExpr" else f.s(st["args"][0]))
+                        arm = self.refalias.get(oe["d"].get("id")) if oe is not None and oe["k"] == "DeclRefExpr" else None
+                        if arm is not None and arm["k"] == "MemberExpr" and arm["m"].get("is_field"):
+                            fld = (arm["m"].get("rec"), arm["m"]["name"])
+                            op = dict(op, obj=path(f, arm))
                     objtok = self.tok_of_base(op["obj"])
                     if op["op"] == "load":
                         self.events.append(dict(k="aload", obj=op["obj"], fld=fld, pos=pos, st=st, objtok=objtok))
@@ -67,6 +81,8 @@ class PathEvents:
                 self.tf.step(pos)
             else:
                 blk = f.blocks[pos[0]]
+                if blk.term.get("k") == "ConditionalOperator":
+                    self.tern[blk.term["s"]] = val
                 cond = f.s(blk.term.get("cond"))
                 atoms = cond_atoms(f, cond, val)
                 for a in atoms:
@@ -108,3 +124,29 @@ def all_paths(f, objects=(), unroll=None):
         if pe.feasible:
             out.append(pe)
     return out
+
+
+def insertion_body(f):
+    """(function holding the linking stores, access path of the new node there, allocate_unique call in f, position in
+    f from which the linking code runs).  The linking code is either in the insertion function itself or in a private
+    helper of rcu_list that receives the freshly allocated node."""
+    mk = [st for st in f.stmts.values() if st["k"] == "CallExpr" and callee_fq(st) == "gmlc::libguarded::detail::allocate_unique"]
+    var = None
+    for st in f.stmts.values():
+        if st["k"] == "DeclStmt":
+            for d in st["decls"]:
+                if d.get("init") and mk and any(x["id"] == mk[0]["id"] for x in f.descendants(f.s(d["init"]))):
+                    var = "l:" + d["name"]
+    if var is None:
+        return None
+    if any(op["op"] in ("store", "rmw", "cas") for op in atomic_ops(f)):
+        return f, var, mk, None
+    for st in f.stmts.values():
+        if st["k"] == "CXXMemberCallExpr" and path(f, f.s(st.get("obj"))) == "this":
+            g = f.unit.fn_by_id.get((st.get("callee") or {}).get("id"))
+            if g is None or g.rec != RCU or g.access == "public":
+                continue
+            for i, a in enumerate(st["args"]):
+                if path(f, f.s(a)) == var and i < len(g.params):
+                    return g, "p:" + g.params[i]["name"], mk, f.pos_of(st)
+    return f, var, mk, None
